@@ -41,9 +41,12 @@ def gen_case(rng, shape_name, with_override, with_sugar, with_alias):
     # rules per file
     defs = {i: (["S"] if i == 0 else []) + rng.sample(RULES[:4], rng.randint(1, 2)) + (["L"] if rng.random() < 0.5 else []) for i in range(nfiles)}
     aliases = {i: {} for i in range(nfiles)}
+    # positional aliases: the k-th import of EVERY file is called m<k>, so one module name means different files in different files
+    # (round-4 seeded change C20-g: qualified names were cached grammar-wide under the name as written)
+    positional = with_alias and rng.random() < 0.3
     for i, imps in shape.items():
-        for j in imps:
-            aliases[i][j] = (FNAMES[j][0] + "x") if (with_alias and rng.random() < 0.5) else FNAMES[j]
+        for k, j in enumerate(imps):
+            aliases[i][j] = ("m%d" % k) if positional else (FNAMES[j][0] + "x") if (with_alias and rng.random() < 0.5) else FNAMES[j]
     # which files declare the terminal TT (the same bare name with a different recognizer in each file); decided first: TT is also used as a
     # SEPARATOR, by its local name or through an import (finding D32: helper rules are named after the separator's local name only)
     has_tt = {i: rng.random() < 0.5 for i in range(nfiles)}
@@ -99,6 +102,9 @@ def gen_case(rng, shape_name, with_override, with_sugar, with_alias):
                             k += 1
                             it["name"] = "m%d" % k
             rules.append({"name": [n], "alts": alts})
+        if i == 0 and rng.random() < 0.3:
+            # a KEYWORD rule in the ROOT file governs the string terminals of every file (round-4 seeded change C20-h)
+            terms.append({"name": "KEYWORD", "text": "/\\w+/", "re": True})
         files[i] = {"imports": [{"alias": aliases[i][j], "target": FNAMES[j]} for j in shape[i]], "rules": rules, "terms": terms}
     if with_override:
         # override one rule of a file reachable from the root, written under the FIRST-path name, body of inline strings only
@@ -134,7 +140,7 @@ def file_text(f, me="root", dirs=None):
                                  for it in alt) or "EMPTY")
         out += "%s: %s;\n" % (".".join(r["name"]), " | ".join(alts))
     if f["terms"]:
-        out += "terminals\n" + "".join('%s: "%s";\n' % (t["name"], t["text"]) for t in f["terms"])
+        out += "terminals\n" + "".join(('%s: %s;\n' % (t["name"], t["text"])) if t.get("re") else ('%s: "%s";\n' % (t["name"], t["text"])) for t in f["terms"])
     return out
 
 
@@ -162,7 +168,7 @@ def worker(job):
         case["built"] = True
         flat = _flat_parser(real, g)
         case["prods"] = [{"lhs": p.symbol.fqn, "rhs": [s.fqn for s in p.rhs if s.name != "EMPTY"]} for p in g.productions]
-        case["terms"] = [[t.fqn, t.recognizer.value] for n, t in g.terminals.items() if n not in ("EMPTY", "STOP")]
+        case["terms"] = [[t.fqn, _term_text(t)] for n, t in g.terminals.items() if n not in ("EMPTY", "STOP")]
         # helper rules of the sugar, identified by the documented suffix AND their structure; their names are not compared (the real helper
         # name follows the spelling of the reference, which differs from the base symbol's FQN on non-first import paths)
         by_lhs = {}
@@ -194,11 +200,21 @@ def worker(job):
             words = rng.sample(words, 40)
         words += _sentences(case["prods"], dict((t[0], t[1]) for t in case["terms"]), rng)
         seen = set()
-        for toks in words:
-            if tuple(toks) in seen or len(toks) > 8:
+        # the same token sequences with two neighbours GLUED together (no layout between them): not token sequences of the chart reference any
+        # more, judged parser against parser only
+        glued = []
+        for toks in words[::3]:
+            if len(toks) >= 2:
+                k = rng.randrange(len(toks) - 1)
+                glued.append(toks[:k] + [toks[k] + toks[k + 1]] + toks[k + 2:] + ["<glued>"])
+        for toks in words + glued:
+            is_glued = bool(toks) and toks[-1] == "<glued>"
+            if is_glued:
+                toks = toks[:-1]
+            if (tuple(toks), is_glued) in seen or len(toks) > 8:
                 continue
-            seen.add(tuple(toks))
-            e = {"toks": toks, "ok": False, "complete": True, "trees": [], "results": [], "raised": "", "hasflat": False, "okflat": False}
+            seen.add((tuple(toks), is_glued))
+            e = {"toks": toks, "glued": is_glued, "ok": False, "complete": True, "trees": [], "results": [], "raised": "", "hasflat": False, "okflat": False}
             if flat is not None:
                 try:
                     with real.guard(8), real.quiet():
@@ -230,6 +246,19 @@ def worker(job):
     return [case]
 
 
+def _term_text(t):
+    """the text of a string terminal (also after the KEYWORD rewrite to \\b<text>\\b), '/regex/' for a regex terminal"""
+    import re as _re
+
+    rec = t.recognizer
+    if hasattr(rec, "value"):
+        return rec.value
+    rx = getattr(rec, "_regex", "?")
+    if getattr(t, "keyword", False) and rx.startswith("\\b") and rx.endswith("\\b"):
+        return _re.sub(r"\\(.)", r"\1", rx[2:-2])
+    return "/%s/" % rx
+
+
 def _flat_parser(real, g):
     """GLRParser for the SINGLE-FILE grammar made of the real grammar's own productions (same order, qualified names spelled with '__'
     instead of '.', every terminal declared with its recognizer).  ImportCheck.tla proves these productions equal to Imports!Flatten, so
@@ -256,8 +285,11 @@ def _flat_parser(real, g):
         text = "".join("%s: %s;\n" % (k, " | ".join(by[k])) for k in [start] + order)
         used = {x.fqn for p in g.productions[1:] for x in p.rhs}
         terms = [t for n, t in g.terminals.items() if n not in ("EMPTY", "STOP") and t.fqn in used]
-        if terms:
+        kw = g.terminals.get("KEYWORD")
+        if terms or kw is not None:
             text += "terminals\n" + "".join("%s: %s;\n" % (nm(t), _tdecl(t)) for t in terms)
+            if kw is not None:
+                text += "KEYWORD: /%s/;\n" % kw.recognizer._regex
         with real.guard(20), real.quiet():
             return real.GLRParser(real.Grammar.from_string(text))
     except Exception:  # noqa: BLE001
@@ -265,7 +297,7 @@ def _flat_parser(real, g):
 
 
 def _tdecl(t):
-    v = t.recognizer.value
+    v = _term_text(t)
     return '"%s"' % v.replace("\\", "\\\\").replace('"', '\\"')
 
 
